@@ -47,6 +47,7 @@ type c17g struct {
 	allowRef bool
 	nInl     int
 	frag     bool // only the schema kinds of C02 (no objects, one-ofs, references)
+	dispPct  int  // percentage of properties that carry display data (a name, sometimes a description)
 }
 
 func (g *c17g) optBounds(lo, hi int64) (mn, mx *int64) {
@@ -191,6 +192,14 @@ func (g *c17g) props(depth, n int, names []string) []propD {
 				others = append(others, ps[j].name)
 			}
 		}
+		// display data: errors of a NAMED property are re-wrapped on a path of their own (property.go)
+		if !g.frag && r.Chance(g.dispPct) {
+			var desc *string
+			if r.Bool() {
+				desc = sp("Some description.")
+			}
+			p.disp = dDisp(sp(pick(r, []string{"Name", "A title", "x"})), desc, nil)
+		}
 		switch r.Intn(9) {
 		case 0, 1, 2:
 			p.required = true
@@ -236,7 +245,13 @@ func (g *c17g) oneof(depth int) *sx.Node {
 			}
 		}
 		if t == nil {
+			// the member's properties are reached through the one-of's compatibility pre-check as well: named more often
+			save := g.dispPct
+			if g.dispPct > 0 {
+				g.dispPct = 60
+			}
 			props := g.props(depth, 1+r.Intn(2), []string{"p", "q", "w"})
+			g.dispPct = save
 			if inlined {
 				dt := dString(nil, nil, nil)
 				if intKeys {
@@ -289,6 +304,7 @@ type c17V struct {
 	discField  string // member of an inlined one-of: the property that is the discriminator (owned by the one-of)
 	strMap     bool   // raw rendering: map[string]any rather than map[any]any when every key is a string
 	exact      bool   // native rendering: exactly typed containers ([]int64, map[string]float64, ...)
+	short      bool   // raw rendering of a one-property object: the property's value instead of a map (shorthand)
 }
 
 func c17Resolve(t *sx.Node, sc scopeCtx) (*sx.Node, scopeCtx) {
@@ -515,6 +531,9 @@ func c17Valid(r *Rng, t *sx.Node, sc scopeCtx, depth int, key bool) *c17V {
 			v.names = append(v.names, p.List[0].Str)
 			v.fields = append(v.fields, f)
 		}
+		// an object with exactly one property may be written as the value of that property (the single-property
+		// shorthand of ObjectSchema.Unserialize): half of them are, in the raw form
+		v.short = len(props) == 1 && len(v.names) == 1 && r.Chance(50)
 	case "oneof":
 		m := pick(r, t.List[2].List)
 		v.field = t.List[3].Str
@@ -529,6 +548,7 @@ func c17Valid(r *Rng, t *sx.Node, sc scopeCtx, depth int, key bool) *c17V {
 		if v.member == nil {
 			return nil
 		}
+		v.member.short = false // a one-of reads its value as a map (discriminator + the member's properties)
 		if v.inlined { // the member declares the discriminator: its value is the key
 			v.member.discField = v.field
 			for i, nm := range v.member.names {
@@ -812,6 +832,12 @@ func c17Render(v *c17V, native bool, f *c17fault, exactUp bool) *sx.Node {
 		}
 		return out
 	case "object":
+		if !native && v.short && !here && len(v.names) == 1 {
+			// shorthand: anything that is not a map stands for the only property (a map would be read as the object)
+			if x := c17Render(v.fields[0], native, f, false); !(x.IsList() && x.Head() == "m") {
+				return x
+			}
+		}
 		t := tStrMap
 		if !native && (!v.strMap || (here && f.extraKey != nil && f.extraKey.Head() != "s")) {
 			t = tAnyMap
@@ -1293,7 +1319,7 @@ func init() {
 				n, maxFaults = 1200, 120
 			}
 			for i := 0; i < n; i++ {
-				g := &c17g{r: r}
+				g := &c17g{r: r, dispPct: 35}
 				depth := 1 + r.Intn(3)
 				if c := c17Case(r, g, depth, maxFaults); c != nil {
 					emit(c)
